@@ -19,6 +19,7 @@ use k256::{
         RecoveryId,
         VerifyingKey,
     },
+    elliptic_curve::ops::Reduce,
 };
 
 #[cfg(feature = "random")]
@@ -48,8 +49,15 @@ pub fn public_key(secret: &SecretKey) -> PublicKey {
 pub fn sign(secret: &SecretKey, message: &Message) -> [u8; 64] {
     let sk: k256::SecretKey = secret.into();
     let sk: ecdsa::SigningKey<k256::Secp256k1> = sk.into();
+
+    // RFC 6979 derives the nonce from the message reduced modulo the group order
+    // (`bits2octets`), which is what the `secp256k1` backend does. The `ecdsa` crate
+    // feeds the bytes as given, so reduce them first; the signed scalar is the same.
+    let reduced =
+        <k256::Scalar as Reduce<k256::U256>>::reduce_bytes(&(**message).into())
+            .to_bytes();
     let (signature, _recid) = sk
-        .sign_prehash_recoverable(&**message)
+        .sign_prehash_recoverable(&reduced)
         .expect("Infallible signature operation");
 
     // TODO: this is a hack to get the recovery id. The signature should be normalized
